@@ -2019,6 +2019,27 @@ def base_field_contructor(session, group, name, timestamp=None, chunksize=None):
     return field
 
 
+def _no_partial_field(constructor):
+    """
+    A constructor that fails after base_field_contructor has created the field's hdf5 group (an invalid
+    nformat, length or key) must not leave that group behind: the dataframe would not list the field, yet
+    the name could never be used again in that dataframe.
+    """
+    def construct(session, group, name, *args, **kwargs):
+        h5group = getattr(group, '_h5group', group)
+        existed = name in h5group
+        try:
+            return constructor(session, group, name, *args, **kwargs)
+        except Exception:
+            if not existed and name in h5group:
+                del h5group[name]
+            raise
+    construct.__name__ = constructor.__name__
+    construct.__doc__ = constructor.__doc__
+    return construct
+
+
+@_no_partial_field
 def indexed_string_field_constructor(session, group, name, timestamp=None, chunksize=None):
     field = base_field_contructor(session, group, name, timestamp, chunksize)
     field.attrs['fieldtype'] = 'indexedstring'
@@ -2026,6 +2047,7 @@ def indexed_string_field_constructor(session, group, name, timestamp=None, chunk
     DataWriter.write(field, 'values', [], 0, 'uint8')
 
 
+@_no_partial_field
 def fixed_string_field_constructor(session, group, name, length, timestamp=None, chunksize=None):
     field = base_field_contructor(session, group, name, timestamp, chunksize)
     field.attrs['fieldtype'] = 'fixedstring,{}'.format(length)
@@ -2033,6 +2055,7 @@ def fixed_string_field_constructor(session, group, name, length, timestamp=None,
     DataWriter.write(field, 'values', [], 0, "S{}".format(length))
 
 
+@_no_partial_field
 def numeric_field_constructor(session, group, name, nformat, timestamp=None, chunksize=None):
     field = base_field_contructor(session, group, name, timestamp, chunksize)
     field.attrs['fieldtype'] = 'numeric,{}'.format(nformat)
@@ -2040,6 +2063,7 @@ def numeric_field_constructor(session, group, name, nformat, timestamp=None, chu
     DataWriter.write(field, 'values', [], 0, nformat)
 
 
+@_no_partial_field
 def categorical_field_constructor(session, group, name, nformat, key,
                                   timestamp=None, chunksize=None):
     field = base_field_contructor(session, group, name, timestamp, chunksize)
@@ -2053,6 +2077,7 @@ def categorical_field_constructor(session, group, name, nformat, key,
     DataWriter.write(field, 'key_names', key_names, len(key_names), h5py.special_dtype(vlen=str))
 
 
+@_no_partial_field
 def timestamp_field_constructor(session, group, name, timestamp=None, chunksize=None):
     field = base_field_contructor(session, group, name, timestamp, chunksize)
     field.attrs['fieldtype'] = 'timestamp'
